@@ -1,8 +1,9 @@
 (* C13: define-then-delete is the identity; feature dependencies stay consistent
    (statements only; proofs in DepsProofs.v / DepsTables.v). *)
 From Coq Require Import ZArith List Bool Arith Lia.
-From CV Require Import C13.DepsModel C13.InvModel C13.DepsProofs C13.DepsTables C13.ModuleModel C13.ModuleProofs C13.DepsInv C13.ModuleInv C13.ModuleRooted C13.EnableExcl C13.EnableWitness C13.UserFeatures Gen.GenDeps.
+From CV Require Import Base.Num C13.DepsModel C13.InvModel C13.DepsProofs C13.DepsTables C13.ModuleModel C13.ModuleProofs C13.DepsInv C13.ModuleInv C13.ModuleRooted C13.EnableExcl C13.EnableWitness C13.UserFeatures C13.CrossC08 C13.IdentityProofs Gen.GenDeps.
 Import ListNotations.
+Open Scope nat_scope.
 
 (* ---- table theorems, re-checked on every run against the tables dumped from the binary ---- *)
 
@@ -532,4 +533,48 @@ Proof.
   do 2 eexists. split; [vm_compute; reflexivity|]. split; [vm_compute; reflexivity|]. split; [vm_compute; reflexivity|].
   split; [vm_compute; reflexivity|]. split; [vm_compute; reflexivity|]. split; [vm_compute; reflexivity|]. split; [vm_compute; reflexivity|].
   eexists. split; [vm_compute; reflexivity|]. split; vm_compute; reflexivity.
+Qed.
+
+(* ==== cross-check with the C08 model (CrossC08.v): its small dependency engine (active / awake / apply_force of a variable:
+   the references taken and dropped when biases and variables with timeStepFactor > 1 go to sleep and wake up) agrees with
+   the general engine instantiated with the regenerated tables, on every flag combination and every count in -1 .. 3 *)
+Theorem GenDeps_C08_engine_agrees : forall (T : Type) (O : NumOps T),
+  cross_check O gen_tables = true /\ cross_check O gen_tables_lagged = true.
+Proof. intros T O. exact (c08_engine_agrees O). Qed.
+Print Assumptions GenDeps_C08_engine_agrees.
+
+(* ==== define-then-delete is the identity, model level (IdentityProofs.v) ====
+   FULL STATEMENT (false of the code: C13_add_delete_identity_refuted, finding F2): linking a variable to a bias and deleting
+   the bias restores the state of every other object.
+   _partial: it holds when everything the bias requires of the variable is already ON and REFERENCED (ref_count >= 1 for
+   dynamic features, >= 0 for the others): then add_child only takes references, colvarbias::clear only drops them, no
+   automatic disable fires, and every feature state (flags, counts, alternates) and every children/parents list of every
+   object is restored.  Not covered: capabilities that the bias has to switch on (they are switched off again by the
+   deletion in the implementation; checked there by the identity re-runs), several variables. *)
+Theorem C13_link_then_delete_bias_identity_partial : forall (T : tables) n m (s : state) (b v : nat) s1 s2,
+  b < length s -> v < length s -> b <> v -> o_children (get_obj s b) = [] ->
+  is_enabled s b 0 = true ->
+  (forall fid g, is_enabled s b fid = true -> In g (f_children (feat T (cls_of s b) fid)) ->
+     is_enabled s v g = true /\ g < nfeat T (cls_of s v) /\ (0 <= rc s v g)%Z /\
+     (is_dynamic (feat T (cls_of s v) g) = true -> (1 <= rc s v g)%Z)) ->
+  add_child T (S n) b v s = Some s1 -> delete_bias T m b s1 = Some s2 ->
+  length s2 = length s /\
+  (forall o f, get_fs s2 o f = get_fs s o f) /\
+  (forall o, cls_of s2 o = cls_of s o /\ o_children (get_obj s2 o) = o_children (get_obj s o) /\
+             o_parents (get_obj s2 o) = o_parents (get_obj s o)).
+Proof. exact link_then_delete_bias_identity. Qed.
+Print Assumptions C13_link_then_delete_bias_identity_partial.
+
+(* non-vacuity on the real tables: the example state (variable 0 active, referenced once by bias 7) plus a second, active,
+   still childless bias (object 8); it is linked to variable 0 and deleted *)
+Definition exi_ops : list mop := firstn 8 ex_ops ++ [MNewBias (ex_avail 17) []; MPrim (OpEnable 8 0 false true false)].
+
+Example C13_example_identity : exists m s1 s2,
+  m_run gen_tables 40 exi_ops (m_empty 5) = Some m /\
+  pc_check gen_tables (m_objs m) 8 0 = true /\ is_enabled (m_objs m) 8 0 = true /\ o_children (get_obj (m_objs m) 8) = [] /\
+  add_child gen_tables 40 8 0 (m_objs m) = Some s1 /\ rc s1 0 0 = 2%Z /\
+  delete_bias gen_tables 40 8 s1 = Some s2 /\ rc s2 0 0 = 1%Z.
+Proof.
+  do 3 eexists. split; [vm_compute; reflexivity|]. split; [vm_compute; reflexivity|]. split; [vm_compute; reflexivity|].
+  split; [vm_compute; reflexivity|]. split; [vm_compute; reflexivity|]. split; [vm_compute; reflexivity|]. split; vm_compute; reflexivity.
 Qed.
